@@ -389,6 +389,7 @@ class ListBox(Widget, WidgetContainerMixin):
         # used for scrollable protocol
         self._rows_max_cached = 0
         self._rendered_size = 0, 0
+        self._zero_row_widgets_in_view: list[Widget] = []
 
     @property
     def body(self) -> ListWalker:
@@ -491,6 +492,8 @@ class ListBox(Widget, WidgetContainerMixin):
         focus_rows = focus_widget.rows((maxcol,), True)
 
         # 2. collect the widgets above the focus
+        #    (widgets in view that take no rows are not displayed; render() needs to know about them)
+        self._zero_row_widgets_in_view = []
         pos = focus_pos
         fill_lines = offset_rows
         fill_above = []
@@ -505,6 +508,8 @@ class ListBox(Widget, WidgetContainerMixin):
             p_rows = prev.rows((maxcol,))
             if p_rows:  # filter out 0-height widgets
                 fill_above.append(VisibleInfoFillItem(prev, pos, p_rows))
+            else:
+                self._zero_row_widgets_in_view.append(prev)
             if p_rows > fill_lines:  # crosses top edge?
                 trim_top = p_rows - fill_lines
                 break
@@ -524,6 +529,8 @@ class ListBox(Widget, WidgetContainerMixin):
             n_rows = next_pos.rows((maxcol,))
             if n_rows:  # filter out 0-height widgets
                 fill_below.append(VisibleInfoFillItem(next_pos, pos, n_rows))
+            else:
+                self._zero_row_widgets_in_view.append(next_pos)
             if n_rows > fill_lines:  # crosses bottom edge?
                 trim_bottom = n_rows - fill_lines
                 fill_lines -= n_rows
@@ -735,6 +742,9 @@ class ListBox(Widget, WidgetContainerMixin):
             combinelist.append((canvas, w_pos, False))
 
         final_canvas = CanvasCombine(combinelist)
+        # widgets in view that take no rows are not part of the canvas, but they would be as soon as they got
+        # rows: the canvas depends on them like on the displayed ones
+        hidden = list(self._zero_row_widgets_in_view)
 
         if trim_top:
             final_canvas.trim(trim_top)
@@ -775,6 +785,7 @@ class ListBox(Widget, WidgetContainerMixin):
                         f"Render top={top!r}, middle={middle!r}, bottom={bottom!r}\n"
                         f"Not rendered not empty widgets available (first is {widget!r} with position {next_pos!r})"
                     )
+                hidden.append(widget)
 
                 widget, next_next_pos = self._body.get_next(next_pos)
                 if next_pos == next_next_pos:
@@ -785,6 +796,9 @@ class ListBox(Widget, WidgetContainerMixin):
                 next_pos = next_next_pos
 
             final_canvas.pad_trim_top_bottom(0, maxrow - rows)
+
+        if hidden:
+            final_canvas.set_depends([canv.widget_info[0] for canv, _, _ in combinelist if canv.widget_info] + hidden)
 
         return final_canvas
 
